@@ -249,8 +249,7 @@ class NDNApp:
         try:
             data_name, meta_info, content, sig, raw_packet = await aio.wait_for(future, timeout=lifetime/1000.0)
         except TimeoutError:
-            if node.timeout(future):
-                del self._int_tree[node_name]
+            self._remove_pending(future, node_name, node)
             raise InterestTimeout()
         except aio.CancelledError:
             raise InterestCanceled()
@@ -263,6 +262,11 @@ class NDNApp:
                 return data_name, meta_info, content
         else:
             raise ValidationFailure(data_name, meta_info, content, sig)
+
+    def _remove_pending(self, future: aio.Future, node_name: FormalName, node: InterestTreeNode):
+        # Only delete the node we own: it may have been removed already, or replaced by a newer one.
+        if node.timeout(future) and self._int_tree.get(node_name) is node:
+            del self._int_tree[node_name]
 
     async def main_loop(self, after_start: Awaitable = None) -> bool:
         """
